@@ -307,7 +307,8 @@ def _validate_OperationTimeout(OperationTimeout):
       TypeError: Invalid type
       ValueError: Invalid value
     """
-    if not isinstance(OperationTimeout, (int, type(None))):
+    if not isinstance(OperationTimeout, (int, type(None))) or \
+            isinstance(OperationTimeout, bool):
         raise TypeError(
             _format("The 'OperationTimeout' parameter of the WBEMConnection "
                     "operation has invalid type {0} (must be integer)",
@@ -330,7 +331,8 @@ def _validate_MaxObjectCount_Iter(MaxObjectCount):
       TypeError: Invalid type
       ValueError: Invalid value, including None
     """
-    if not isinstance(MaxObjectCount, (int, type(None))):
+    if not isinstance(MaxObjectCount, (int, type(None))) or \
+            isinstance(MaxObjectCount, bool):
         raise TypeError(
             _format("The 'MaxObjectCount' parameter of the WBEMConnection "
                     "operation has invalid type {0} (must be integer)",
